@@ -68,6 +68,11 @@ func verdictFinding(r *rt.Result) []rt.Finding {
 // results/errors consumers; if stopAfter >= 0 a separate goroutine calls Stop once the
 // main goroutine has issued stopAfter submissions (racing with the rest).
 func c42(name, items string, workers int, stopAfter int) e1lib.Scenario {
+	return c42n(name, items, workers, stopAfter, 1)
+}
+
+// c42n: like c42 with nStop goroutines calling Stop concurrently.
+func c42n(name, items string, workers int, stopAfter int, nStop int) e1lib.Scenario {
 	body := func() {
 		ctx := vcontext.Background()
 		p := pipeline.NewBlockPipeline(
@@ -96,13 +101,15 @@ func c42(name, items string, workers int, stopAfter int) e1lib.Scenario {
 			rt.Close("h:errDone", errDone)
 		})
 		stopGo := make(chan struct{})
-		stopped := make(chan struct{})
+		stopped := make(chan struct{}, nStop)
 		if stopAfter >= 0 {
-			rt.Go("stopper", func() {
-				rt.Recv("h:stopGo", stopGo)
-				p.Stop()
-				rt.Close("h:stopped", stopped)
-			})
+			for k := 0; k < nStop; k++ {
+				rt.Go("stopper", func() {
+					rt.Recv("h:stopGo", stopGo)
+					p.Stop()
+					rt.Send("h:stopped", stopped, struct{}{})
+				})
+			}
 		}
 		for i := 0; i < len(items); i++ {
 			if i == stopAfter {
@@ -127,7 +134,9 @@ func c42(name, items string, workers int, stopAfter int) e1lib.Scenario {
 			vtime.Sleep(200 * time.Millisecond)
 			p.Stop()
 		} else {
-			rt.Recv("h:stopped?", stopped)
+			for k := 0; k < nStop; k++ {
+				rt.Recv("h:stopped?", stopped)
+			}
 		}
 		rt.Recv("h:resDone?", resDone)
 		rt.Recv("h:errDone?", errDone)
@@ -215,7 +224,10 @@ func TestC42(t *testing.T) {
 				scs = append(scs, c42(fmt.Sprintf("stop@%d-BxS-w%d", sa, w), "BxS", w, sa))
 			}
 		}
+		// several goroutines stopping at once
+		scs = append(scs, c42n("2stop@1-BS-w1", "BS", 1, 1, 2), c42n("2stop@0-B-w2", "B", 2, 0, 2))
 		if thorough {
+			scs = append(scs, c42n("3stop@1-BxS-w2", "BxS", 2, 1, 3))
 			scs = append(scs, c42("nostop-BSBSBS-w16", "BSBSBS", 16, -1), c42("stop@2-BSBx-w3", "BSBx", 3, 2))
 		}
 		for i := range scs {
